@@ -57,6 +57,9 @@ def check(ctx):
     repo = ctx.repo
     from . import generic as _gen
     _gen.language_traps(ctx, _gen.anchor_functions(repo, "C15"), "the property holds for every input, on every call")
+    _gen.raises_inside_domain(ctx, repo.fn(f"{LOD}.insert"), "index", [lambda n: -n - 2, lambda n: -n - 1, lambda n: -n, -1, 0, 1, lambda n: n - 1, lambda n: n, lambda n: n + 1, lambda n: n + 5],
+                              "an index list.insert accepts (every integer)", "insert produces the same item sequence as list.insert",
+                              lengths=("len(self)", "len(items)"))
     from . import generic
     generic.memo_projection(ctx, ("dataiter.list_of_dicts",), "select / rename / modify change only the named keys of each item, in the item's own key order")
     generic.wrapper_must_call(ctx, [f for f in generic.module_functions(repo, "dataiter.deco")],
